@@ -6,12 +6,19 @@ from .utils import DEFAULT
 from .._compat import string_types
 
 
+def whole_position(number):
+    """ a position computed as a float (4/2) is the same position as the integer it equals """
+    if isinstance(number, float) and number == int(number):
+        return int(number)
+    return number
+
+
 @dispatcher.register_for('CHOOSE')
 def CHOOSE(*args):
     if (len(args) < 2):
         return error.NOT_AVAILABLE
 
-    index = args[0]
+    index = whole_position(args[0])
     if (index < 1 or index > 254):
         return error.VALUE
 
@@ -85,11 +92,13 @@ def INDEX(arr, row_num=DEFAULT, column_num=DEFAULT, area_num=DEFAULT):
         row_num = utils.parse_number(row_num)
         if isinstance(row_num, error.XLError):
             return row_num
+        row_num = whole_position(row_num)
 
     if column_num is not DEFAULT:
         column_num = utils.parse_number(column_num)
         if isinstance(column_num, error.XLError):
             return column_num
+        column_num = whole_position(column_num)
     if (row_num is not DEFAULT and row_num < 0) or (column_num is not DEFAULT and column_num < 0):
         return error.VALUE
     if (row_num is DEFAULT or row_num == 0) and (column_num is DEFAULT or column_num == 0):
